@@ -22,8 +22,8 @@ def sh(cmd, cwd=None, timeout=3600):
     return r.returncode, r.stdout
 
 
-def do_import(pid):
-    src, wt = "/tmp/benign-%s-out" % pid, "/tmp/benign-%s" % pid
+def do_import(pid, rnd=""):
+    src, wt = "/tmp/benign%s-%s-out" % (rnd, pid), "/tmp/benign%s-%s" % (rnd, pid)
     metas = json.load(open(os.path.join(src, "meta.json")))
     if isinstance(metas, dict):
         metas = metas.get("changes") or metas.get("patches") or list(metas.values())
@@ -33,7 +33,7 @@ def do_import(pid):
         if not os.path.isfile(pf) or os.path.getsize(pf) == 0:
             continue
         n += 1
-        dst = os.path.join(DIR, "%s-%s" % (pid, os.path.splitext(os.path.basename(pf))[0].replace("patch", "")))
+        dst = os.path.join(DIR, "%s-%s%s" % (pid, "r%s-" % rnd if rnd else "", os.path.splitext(os.path.basename(pf))[0].replace("patch", "")))
         os.makedirs(dst, exist_ok=True)
         shutil.copy(pf, os.path.join(dst, "patch.diff"))
         m["property"] = pid
@@ -94,6 +94,8 @@ if __name__ == "__main__":
     props = a[a.index("--props") + 1].split(",") if "--props" in a else None
     if a[0] == "import":
         do_import(a[1])
+    elif a[0] == "import2":
+        do_import(a[1], "2")
     elif a[0] == "check":
         check(a[1], props)
     elif a[0] == "pending":
